@@ -392,6 +392,28 @@ def runT {B H : Type} (env : Env B H) (attach : Message B H → Option Nat) :
     | .panic st => ([], .panic st, o.codec, o.sock)
     | .hang => ([], .hang, o.codec, o.sock)
 
+/-! ## which results of `codec.read()` end the connection (`try_break!` in `conn::poll`) -/
+
+inductive LoopAct
+  /-- `Some(message)`: handed to the `MessageHandler` (an `Unknown` one is skipped) -/
+  | deliver
+  /-- `None`: `Error::Connection` of kind `TimedOut` / `WouldBlock` — nothing yet, read again -/
+  | retry
+  /-- `break`: the reader thread shuts the connection down -/
+  | leave
+deriving DecidableEq, Repr
+
+/-- `try_break!(next)` on the result of `codec.read()`: every error class the codec can return —
+`Serialization(_)` (wrong magic `UnexpectedData`, `TooLargeReadErr`, `CorruptedData` … of a body that
+was consumed completely), `BadMessage`, `UnexpectedMessage`, `Connection` other than a timeout — ends
+the stream; only a read timeout is tolerated.  (`Store` / `Chain` / `Internal` / `NoDandelionRelay`,
+which the macro also tolerates, are results of the *handler*, never of the codec.) -/
+def tryBreak {B H : Type} : Res B H → LoopAct
+  | .msg _ => .deliver
+  | .err e => if e = .timedOut then .retry else .leave
+  | .panic _ => .leave
+  | .hang => .leave
+
 /-! ## `msg::read_message` (used by the handshake, straight on the `TcpStream`) -/
 
 /-- result of `read_message`: value or error class, bytes consumed from the stream, bytes requested
